@@ -8,6 +8,7 @@
      - label: LabelRule "lastwriter" (C10)
      - an indexed reference must change at most one connection of the observed graph (C11). *)
 EXTENDS D2IR
+CONSTANT AttrProp    \* the property that attribute/label/shape disagreements are reported under: C10, or C12 for glob alphabets
 VARIABLES l, tid, prev
 Trace == ndJsonDeserialize("trace.ndjson")
 Chk(c, prop, aspect, detail) == IF c THEN TRUE ELSE PrintT(<<"VIOL", tid, (IF "i" \in DOMAIN Trace[l] THEN Trace[l].i ELSE 0), prop, aspect, detail>>)
@@ -45,9 +46,9 @@ Compare(o, x, xLast, d) ==
   /\ Len(o.objs) = Len(x.objs) =>
        \A i \in 1..Len(o.objs) : o.objs[i].path = x.objs[i].path =>
          /\ Chk(o.objs[i].spell = x.objs[i].spell, "C09", "id-does-not-keep-first-spelling", <<o.objs[i].spell, x.objs[i].spell>>)
-         /\ Chk(o.objs[i].shape = x.objs[i].shape, "C10", "shape-is-not-the-last-assignment", <<o.objs[i].path, o.objs[i].shape, x.objs[i].shape>>)
-         /\ Chk(Pairs(o.objs[i].attrs) = x.objs[i].attrs, "C10", "attribute-is-not-the-last-assignment", <<o.objs[i].path, o.objs[i].attrs, x.objs[i].attrs>>)
-         /\ Chk(o.objs[i].label = x.objs[i].label, "C10", "label-differs-from-model", <<o.objs[i].path, o.objs[i].label, x.objs[i].label>>)
+         /\ Chk(o.objs[i].shape = x.objs[i].shape, AttrProp, "shape-is-not-the-last-assignment", <<o.objs[i].path, o.objs[i].shape, x.objs[i].shape>>)
+         /\ Chk(Pairs(o.objs[i].attrs) = x.objs[i].attrs, AttrProp, "attribute-is-not-the-last-assignment", <<o.objs[i].path, o.objs[i].attrs, x.objs[i].attrs>>)
+         /\ Chk(o.objs[i].label = x.objs[i].label, AttrProp, "label-differs-from-model", <<o.objs[i].path, o.objs[i].label, x.objs[i].label>>)
          /\ Chk(o.objs[i].label = xLast.objs[i].label, "C10", "label-is-not-the-last-assignment", <<o.objs[i].path, o.objs[i].label, xLast.objs[i].label>>)
   /\ Chk([j \in 1..Len(o.edges) |-> EdgeKey(o.edges[j])] = [j \in 1..Len(x.edges) |-> EdgeKey(x.edges[j])], "C09", "connections-or-their-order-differ-from-declaration-order",
          <<[j \in 1..Len(o.edges) |-> EdgeKey(o.edges[j])], [j \in 1..Len(x.edges) |-> EdgeKey(x.edges[j])]>>)
